@@ -26,6 +26,14 @@ NAMES = ["Ev0", "Ev1", "Ev2", "Ev3", "Msg", "msg", "Évé", "E", ""]
 MNAMES = ["on_a", "on_b", "on_c", "On_a", "_on_z", "handle", "Zeta", "alpha", "h1", "h10", "h2"]
 
 
+def _handler_exc():
+    from mpgameserver.dispatch import DispatchError
+    return [KeyError, ValueError, LookupError, RuntimeError, TypeError, DispatchError, AttributeError]
+
+
+HANDLER_EXC = _handler_exc()
+
+
 class World:
     """real classes / resources built from a world spec"""
 
@@ -33,6 +41,7 @@ class World:
         from mpgameserver.dispatch import server_event, client_event
         self.spec = spec
         self.log = []
+        self.raise_now = None      # exception object the handler bodies raise after logging their call (dispatch ops with a 3rd field)
         self.tok = {}
         self.keep = []
         self.classes = [type(n, (object,), {}) for n in spec["classes"]]
@@ -74,13 +83,18 @@ class World:
 
     def _method(self, mname, ann, deco):
         log = self.log
+        w = self
         if deco == 0:
             def h(self, client, seqnum, msg):
                 log.append((self._hids[mname], (client, seqnum, msg)))
+                if w.raise_now is not None:
+                    raise w.raise_now
             h._arity = 3
         else:
             def h(self, seqnum, msg):
                 log.append((self._hids[mname], (seqnum, msg)))
+                if w.raise_now is not None:
+                    raise w.raise_now
             h._arity = 2
         h.__name__ = mname
         h.__annotations__ = {"msg": self.annobj(ann)}
@@ -93,9 +107,15 @@ class World:
 
     def rawfn(self, arity, hid):
         log = self.log
-        fs = {0: lambda: log.append((hid, ())), 1: lambda a: log.append((hid, (a,))),
-              2: lambda a, b: log.append((hid, (a, b))), 3: lambda a, b, c: log.append((hid, (a, b, c))),
-              4: lambda a, b, c, d: log.append((hid, (a, b, c, d)))}
+        w = self
+
+        def body(args):
+            log.append((hid, args))
+            if w.raise_now is not None:
+                raise w.raise_now
+        fs = {0: lambda: body(()), 1: lambda a: body((a,)),
+              2: lambda a, b: body((a, b)), 3: lambda a, b, c: body((a, b, c)),
+              4: lambda a, b, c, d: body((a, b, c, d))}
         f = fs[arity]
         f._hid, f._arity = hid, arity
         return f
@@ -132,14 +152,24 @@ class World:
                 client, seqnum, msg = object(), SeqNum(1 + i % 60000), self.classes[op[1]]()
                 self.keep.append((client, seqnum, msg))
                 tok = {id(client): 3 * i, id(seqnum): 3 * i + 1, id(msg): 3 * i + 2}
+                self.raise_now = HANDLER_EXC[op[2]]("raised by the handler body") if len(op) > 2 and op[2] is not None else None
                 try:
                     if kind == 0:
                         d.dispatch(client, seqnum, msg)
                     else:
                         d.dispatch(seqnum, msg)
                     r = [0, [[h, [tok.get(id(a), -1) for a in args]] for h, args in self.log]]
+                    if self.raise_now is not None and self.log:
+                        r = [1, lib.ERR["DispatchError"], ["handler exception swallowed", [h for h, _ in self.log]]]
                 except Exception as e:   # noqa
-                    r = [1, lib.exc_code(e)] + ([["called", [h for h, _ in self.log]]] if self.log else [])
+                    if e is self.raise_now and self.log:
+                        # the handler was invoked and ITS OWN exception object came out of dispatch(): the invocation
+                        # is reported as it is for a handler that returns
+                        r = [0, [[h, [tok.get(id(a), -1) for a in args]] for h, args in self.log]]
+                    else:
+                        r = [1, lib.exc_code(e)] + ([["called", [h for h, _ in self.log]]] if self.log else [])
+                finally:
+                    self.raise_now = None
                 outs.append(r)
             if len(self.keep) > 64:
                 del self.keep[:32]
@@ -263,7 +293,7 @@ def gen_ops(rng, spec, n):
         elif c < 0.55:
             ops.append(["unreg", rng.randrange(nr)])
         elif c < 0.85:
-            ops.append(["disp", rng.randrange(nc)])
+            ops.append(["disp", rng.randrange(nc)] + ([rng.randrange(len(HANDLER_EXC))] if rng.random() < 0.35 else []))
         else:
             ann = [0, rng.randrange(nc)] if rng.random() < 0.5 else [1, rng.choice(spec["classes"] + ["Nope"])]
             if c < 0.93:
